@@ -1,19 +1,50 @@
-"""aws/aws_sign.c: every asprintf format string with its argument list, per function; the strftime
-formats (with their buffer sizes), the value of time() that is treated as an error, the SHA256_Buf
-calls (data, length expression, output); the literals of the key-derivation chain.  The Coq model
-*interprets* these."""
+"""aws/aws_sign.c, read STATEMENT BY STATEMENT.  For the five functions the translator emits: every
+asprintf format string with its argument list; the strftime formats with their buffer sizes and the
+broken-down-time function that feeds them; the value of time() that is treated as an error; the
+SHA256_Buf calls (data, length expression, output), the hexify calls (in, out, count), the strdup
+calls that produce the returned strings; the actual-argument list of the aws_sign call; the HMAC chain
+of aws_sign and its declared byte arrays.  The Coq model *interprets* these.
+
+Rule: every top-level statement of each function must be of a form this module understands - then
+its meaning is emitted (length expressions in a canonical spelling: value-preserving casts of integer
+literals are dropped, `sizeof("lit") - 1` is `strlen("lit")`, `p != NULL` in a condition is `p`) -
+or the module REFUSES (NotFound): it never emits a reading of something it did not parse.  Statements
+without a meaning for the signing result are accepted and skipped: declarations of locals (with a
+NULL / 0 initialiser or none), assert(...), free(...), warnp(...), goto, labels, return.  The order of
+the remaining steps is compared with the order the hand-written part of the model assumes."""
 import re
 from common import *
 
 FUNCS = ["aws_sign", "aws_sign_s3_headers", "aws_sign_s3_querystr", "aws_sign_svc_headers",
          "aws_sign_dynamodb_headers"]
 
+# the order of the meaningful steps the model's hand-written skeleton assumes
+STEPS = {
+    "aws_sign": ["asprintf", "hmac", "hmac", "hmac", "hmac", "sha", "hexify", "asprintf", "hmac", "hexify"],
+    "aws_sign_s3_headers": ["time", "strftime", "strftime", "sha", "hexify", "asprintf", "sign", "asprintf", "strdup", "strdup"],
+    "aws_sign_svc_headers": ["time", "strftime", "strftime", "sha", "hexify", "asprintf", "sign", "asprintf", "strdup", "strdup"],
+    "aws_sign_dynamodb_headers": ["time", "strftime", "strftime", "sha", "hexify", "asprintf", "sign", "asprintf", "strdup", "strdup"],
+    "aws_sign_s3_querystr": ["time", "strftime", "strftime", "asprintf", "sign", "asprintf"],
+}
+# parameter names the model's initial environments are written with
+PARAMS = {
+    "aws_sign": ["key_secret", "date", "datetime", "region", "service", "creq", "sigbuf"],
+    "aws_sign_s3_headers": ["key_id", "key_secret", "region", "method", "bucket", "path", "body", "bodylen",
+                            "x_amz_content_sha256", "x_amz_date", "authorization"],
+    "aws_sign_s3_querystr": ["key_id", "key_secret", "region", "method", "bucket", "path", "expiry"],
+    "aws_sign_svc_headers": ["key_id", "key_secret", "region", "svc", "body", "bodylen",
+                             "x_amz_content_sha256", "x_amz_date", "authorization"],
+    "aws_sign_dynamodb_headers": ["key_id", "key_secret", "region", "op", "body", "bodylen",
+                                  "x_amz_content_sha256", "x_amz_date", "authorization"],
+}
+DECL_TYPES = r"(?:const\s+)?(?:struct\s+tm|time_t|char|uint8_t|size_t|int)"
 
-def func_bodies(src):
-    """name -> body text, for top-level function definitions 'name(...)\n{ ... \n}'."""
+
+def func_defs(src):
+    """name -> (parameter text, body text), for top-level definitions 'name(...)\n{ ... \n}'."""
     out = {}
     for m in re.finditer(r"^(\w+)\(([^;{]*?)\)\s*\n\{\n(.*?)^\}", src, flags=re.S | re.M):
-        out[m.group(1)] = m.group(3)
+        out[m.group(1)] = (m.group(2), m.group(3))
     return out
 
 
@@ -25,146 +56,420 @@ def coq_name(s):
     return coq_bytes(list(s.encode()))
 
 
-def split_args(s):
-    """split a C argument list at top-level commas"""
-    args, depth, cur, instr = [], 0, "", False
-    i = 0
-    while i < len(s):
+def scan(s, on_char):
+    """walk s outside string/char literals; on_char(i, c, depth) with depth = () [] nesting"""
+    depth, i, n = 0, 0, len(s)
+    while i < n:
         c = s[i]
-        if instr:
-            cur += c
-            if c == "\\":
-                cur += s[i + 1]
-                i += 1
-            elif c == '"':
-                instr = False
-        elif c == '"':
-            instr = True
-            cur += c
-        elif c in "([":
+        if c == '"' or c == "'":
+            j = i + 1
+            while s[j] != c:
+                j += 2 if s[j] == "\\" else 1
+            i = j + 1
+            continue
+        if c in "([":
             depth += 1
-            cur += c
         elif c in ")]":
             depth -= 1
-            cur += c
-        elif c == "," and depth == 0:
-            args.append(cur.strip())
+        r = on_char(i, c, depth)
+        if r is not None:
+            return r
+        i += 1
+    return None
+
+
+def split_top(s, sep):
+    """split at top-level occurrences of the single character sep"""
+    cuts = []
+    scan(s, lambda i, c, d: cuts.append(i) if (c == sep and d == 0) else None)
+    out, prev = [], 0
+    for i in cuts:
+        out.append(s[prev:i].strip())
+        prev = i + 1
+    last = s[prev:].strip()
+    if last or cuts:
+        out.append(last)
+    return out
+
+
+def split_args(s):
+    return [a for a in split_top(s, ",")] if s.strip() else []
+
+
+def statements(body):
+    """top-level statements of a function body: text up to ';' (outside parentheses and braces),
+    a whole `if (...) { ... }`, or a label `name:`"""
+    out, cur, pd, bd, i, n = [], "", 0, 0, 0, len(body)
+    while i < n:
+        c = body[i]
+        if c == '"' or c == "'":
+            j = i + 1
+            while body[j] != c:
+                j += 2 if body[j] == "\\" else 1
+            cur += body[i:j + 1]
+            i = j + 1
+            continue
+        cur += c
+        if c in "([":
+            pd += 1
+        elif c in ")]":
+            pd -= 1
+        elif c == "{":
+            bd += 1
+        elif c == "}":
+            bd -= 1
+            if bd == 0 and pd == 0:
+                out.append(cur.strip())
+                cur = ""
+        elif c == ";" and pd == 0 and bd == 0:
+            out.append(cur.strip()[:-1].strip())
             cur = ""
-        else:
-            cur += c
+        elif c == ":" and pd == 0 and bd == 0 and re.fullmatch(r"\s*\w+:", cur) and "?" not in cur:
+            out.append(cur.strip())
+            cur = ""
         i += 1
     if cur.strip():
-        args.append(cur.strip())
-    return args
+        raise NotFound("unterminated statement: " + cur.strip()[:60])
+    return [s for s in out if s]
+
+
+def strip_parens(e):
+    e = e.strip()
+    while e.startswith("(") and e.endswith(")"):
+        # the opening parenthesis must match the final one
+        close = scan(e, lambda i, c, d: i if (c == ")" and d == 0) else None)
+        if close != len(e) - 1:
+            break
+        e = e[1:-1].strip()
+    return e
+
+
+def call_of(e, fname):
+    """e is exactly `fname(args)` -> args list, else None"""
+    e = e.strip()
+    m = re.match(r"%s\s*\(" % re.escape(fname), e)
+    if not m:
+        return None
+    close = scan(e[m.end() - 1:], lambda i, c, d: i if (c == ")" and d == 0) else None)
+    if close is None or m.end() - 1 + close != len(e) - 1:
+        return None
+    return split_args(e[m.end():-1])
+
+
+def int_value(e):
+    """integer literal, possibly under a value-preserving cast to size_t / unsigned types"""
+    e = strip_parens(e)
+    m = re.fullmatch(r"\(\s*(?:size_t|unsigned(?:\s+(?:int|long))?|unsigned\s+long\s+long|uint64_t|uint32_t)\s*\)\s*(.+)", e)
+    if m:
+        v = int_value(m.group(1))
+        return v
+    m = re.fullmatch(r"(0[xX][0-9a-fA-F]+|\d+)(?:[uU]?[lL]{0,2}|[lL]{1,2}[uU])", e)
+    if not m:
+        return None
+    v = int(m.group(1), 0) if not re.fullmatch(r"0\d+", m.group(1)) else int(m.group(1), 8)
+    return v
+
+
+def lit_text(e):
+    """a (possibly concatenated) string literal and nothing else -> its bytes"""
+    e = e.strip()
+    if not re.fullmatch(r"(?:\s*%s\s*)+" % STR, e, flags=re.S):
+        return None
+    return concat_literals(e)
+
+
+def norm_cond(c):
+    """a pointer used as a truth value -> (name, positive?)"""
+    c = strip_parens(c)
+    if re.fullmatch(r"\w+", c):
+        return c, True
+    m = re.fullmatch(r"(\w+)\s*(!=|==)\s*(?:NULL|0)", c) or None
+    if m:
+        return m.group(1), m.group(2) == "!="
+    m = re.fullmatch(r"(?:NULL|0)\s*(!=|==)\s*(\w+)", c)
+    if m:
+        return m.group(2), m.group(1) == "!="
+    m = re.fullmatch(r"!\s*(\w+)", c)
+    if m:
+        return m.group(1), False
+    raise NotFound("condition not understood: " + c[:60])
+
+
+def norm_len(e, arrays):
+    """canonical spelling of a length expression (see the module comment); refuses anything else"""
+    e = strip_parens(e)
+    v = int_value(e)
+    if v is not None:
+        return str(v)
+    q = split_top(e, "?")
+    if len(q) == 2:
+        ab = split_top(q[1], ":")
+        if len(ab) != 2:
+            raise NotFound("conditional expression not understood: " + e[:60])
+        name, pos = norm_cond(q[0])
+        a, b_ = norm_len(ab[0], arrays), norm_len(ab[1], arrays)
+        return "%s?%s:%s" % ((name, a, b_) if pos else (name, b_, a))
+    if len(q) > 2:
+        raise NotFound("nested conditional: " + e[:60])
+    if re.fullmatch(r"\w+", e):
+        return e
+    a = call_of(e, "strlen")
+    if a is not None and len(a) == 1:
+        if re.fullmatch(r"\w+", a[0]):
+            return "strlen(%s)" % a[0]
+        lit = lit_text(a[0])
+        if lit is not None and 0 not in lit and all(32 <= x < 127 and x not in (34, 92) for x in lit):
+            return 'strlen("%s")' % bytes(lit).decode()
+    m = re.fullmatch(r"sizeof\s*\((.*)\)\s*-\s*1", e, flags=re.S)
+    if m:
+        lit = lit_text(m.group(1))
+        if lit is not None and 0 not in lit and all(32 <= x < 127 and x not in (34, 92) for x in lit):
+            return 'strlen("%s")' % bytes(lit).decode()
+    m = re.fullmatch(r"sizeof\s*\(\s*(\w+)\s*\)", e)
+    if m and m.group(1) in arrays:
+        return str(arrays[m.group(1)])
+    raise NotFound("length expression not understood: " + e[:60])
 
 
 def arg_term(a):
     a = a.strip()
-    if a.startswith('"'):
-        return "ALit " + coq_bytes(concat_literals(a))
+    lit = lit_text(a)
+    if lit is not None:
+        return "ALit " + coq_bytes(lit)
     if re.fullmatch(r"\w+", a):
         return "AVar " + coq_name(a)
-    raise NotFound("unsupported asprintf argument: " + a)
+    raise NotFound("unsupported argument: " + a[:60])
+
+
+def if_parts(st):
+    """`if (cond) body` -> (cond, body); body must only warn and jump to an error label"""
+    m = re.match(r"if\s*\(", st)
+    close = scan(st[m.end() - 1:], lambda i, c, d: i if (c == ")" and d == 0) else None)
+    cond = st[m.end():m.end() - 1 + close]
+    body = st[m.end() + close:].strip()
+    if body.startswith("{") and body.endswith("}"):
+        inner = [x for x in split_top(body[1:-1], ";") if x]
+    else:
+        inner = [x for x in split_top(body, ";") if x]
+    if not inner or not re.fullmatch(r"goto\s+\w+", inner[-1]):
+        raise NotFound("if-body does not end in a goto: " + body[:60])
+    for x in inner[:-1]:
+        if call_of(x, "warnp") is None and call_of(x, "warn0") is None:
+            raise NotFound("if-body statement not understood: " + x[:60])
+    return cond, inner[-1]
+
+
+class Fn:
+    def __init__(self, name):
+        self.name = name
+        self.steps = []
+        self.asprintf, self.hmac, self.sha, self.hexify, self.strdup, self.strftime = [], [], [], [], [], []
+        self.sign = None
+        self.time_err = None
+        self.arrays = {}      # declared arrays name -> size
+        self.u8arrays = []    # uint8_t arrays in declaration order
+        self.tmvars = {}      # local -> function that produced the broken-down time
+
+
+def brokendown(fn, e):
+    """the struct tm * argument of strftime -> name of the function applied to &t_now"""
+    e = e.strip()
+    if re.fullmatch(r"\w+", e):
+        if e not in fn.tmvars:
+            raise NotFound("strftime argument %s was not assigned from a conversion of t_now" % e)
+        return fn.tmvars[e]
+    m = re.fullmatch(r"(\w+)\s*\(\s*&\s*t_now\s*,\s*&\s*\w+\s*\)", e)
+    if not m:
+        raise NotFound("broken-down-time argument not understood: " + e[:60])
+    return m.group(1)
+
+
+def read_function(name, params, body):
+    fn = Fn(name)
+    pl = [re.sub(r"\[[^\]]*\]", "", p).strip() for p in split_args(params)]
+    pn = [re.search(r"(\w+)$", p).group(1) for p in pl]
+    if pn != PARAMS[name]:
+        raise NotFound("parameter names of %s are %s" % (name, pn))
+    returned = False
+    for st in statements(body):
+        flat = re.sub(r"\s+", " ", st)
+        # declarations of locals
+        m = re.fullmatch(r"(%s)\s*(\*?)\s*(\w+)\s*(?:\[\s*(\d+)\s*\])?\s*(?:=\s*(?:NULL|0|\(\s*\w+\s*\*\s*\)\s*0))?" % DECL_TYPES, flat)
+        if m and not flat.startswith("return"):
+            if m.group(4):
+                fn.arrays[m.group(3)] = int(m.group(4))
+                if m.group(1).endswith("uint8_t"):
+                    fn.u8arrays.append((m.group(3), int(m.group(4))))
+            continue
+        if re.fullmatch(r"\w+:", flat):
+            continue
+        if re.fullmatch(r"return\s*\(?\s*(-?\d+|NULL|\w+)\s*\)?", flat):
+            returned = True
+            continue
+        if call_of(flat, "free") is not None or call_of(flat, "assert") is not None:
+            continue
+        if returned:
+            raise NotFound("statement on the error path of %s not understood: %s" % (name, flat[:60]))
+        # tm_now = gmtime_r(&t_now, &r_result)
+        m = re.fullmatch(r"(\w+)\s*=\s*(\w+)\s*\(\s*&\s*t_now\s*,\s*&\s*\w+\s*\)", flat)
+        if m:
+            if m.group(1) in fn.tmvars:
+                raise NotFound("%s assigned twice" % m.group(1))
+            fn.tmvars[m.group(1)] = m.group(2)
+            continue
+        a = call_of(flat, "HMAC_SHA256_Buf")
+        if a is not None:
+            if len(a) != 5:
+                raise NotFound("HMAC_SHA256_Buf arity")
+            if not re.fullmatch(r"\w+", a[4]):
+                raise NotFound("HMAC_SHA256_Buf output")
+            fn.hmac.append((arg_term(a[0]), norm_len(a[1], fn.arrays), arg_term(a[2]), norm_len(a[3], fn.arrays), a[4]))
+            fn.steps.append("hmac")
+            continue
+        a = call_of(flat, "SHA256_Buf")
+        if a is not None:
+            if len(a) != 3 or not re.fullmatch(r"\w+", a[0]) or not re.fullmatch(r"\w+", a[2]):
+                raise NotFound("SHA256_Buf arguments")
+            fn.sha.append((a[0], norm_len(a[1], fn.arrays), a[2]))
+            fn.steps.append("sha")
+            continue
+        a = call_of(flat, "hexify")
+        if a is not None:
+            n = int_value(norm_len(a[2], fn.arrays)) if len(a) == 3 else None
+            if n is None or not re.fullmatch(r"\w+", a[0]) or not re.fullmatch(r"\w+", a[1]):
+                raise NotFound("hexify arguments")
+            fn.hexify.append((a[0], a[1], n))
+            fn.steps.append("hexify")
+            continue
+        if flat.startswith("if"):
+            cond, _ = if_parts(st)
+            c = re.sub(r"\s+", " ", strip_parens(cond))
+            # time(&t_now) == (time_t)(-1)
+            m = re.fullmatch(r"time\s*\(\s*&\s*t_now\s*\)\s*==\s*\(\s*time_t\s*\)\s*\(?\s*(-?\d+)\s*\)?", c)
+            if m:
+                fn.time_err = int(m.group(1))
+                fn.steps.append("time")
+                continue
+            # X == K  with X a call
+            m2 = split_cmp(c)
+            if m2:
+                lhs, op, rhs = m2
+                a = call_of(lhs, "strftime")
+                if a is not None and op == "==" and int_value(rhs) == 0:
+                    if len(a) != 4 or not re.fullmatch(r"\w+", a[0]):
+                        raise NotFound("strftime arguments")
+                    size = int_value(norm_len(a[1], fn.arrays))
+                    lit = lit_text(a[2])
+                    if size is None or lit is None:
+                        raise NotFound("strftime size/format")
+                    if fn.arrays.get(a[0]) != size:
+                        raise NotFound("strftime size %d is not the declared size of %s" % (size, a[0]))
+                    fn.strftime.append((a[0], size, lit, brokendown(fn, a[3])))
+                    fn.steps.append("strftime")
+                    continue
+                a = call_of(lhs, "asprintf")
+                if a is not None and op == "==" and strip_parens(rhs) == "-1":
+                    add_asprintf(fn, a)
+                    continue
+                a = call_of(lhs, "aws_sign")
+                if a is not None and op == "!=" and int_value(rhs) == 0:
+                    add_sign(fn, a)
+                    continue
+                # (*x = strdup(y)) == NULL
+                m = re.fullmatch(r"\*\s*(\w+)\s*=\s*strdup\s*\(\s*(\w+)\s*\)", strip_parens(lhs))
+                if m and op == "==" and strip_parens(rhs) in ("NULL", "0"):
+                    fn.strdup.append((m.group(1), m.group(2)))
+                    fn.steps.append("strdup")
+                    continue
+            a = call_of(c, "aws_sign")
+            if a is not None:
+                add_sign(fn, a)
+                continue
+            raise NotFound("condition in %s not understood: %s" % (name, c[:70]))
+        raise NotFound("statement in %s not understood: %s" % (name, flat[:70]))
+    if fn.steps != STEPS[name]:
+        raise NotFound("steps of %s are %s" % (name, fn.steps))
+    return fn
+
+
+def split_cmp(c):
+    """`lhs == rhs` / `lhs != rhs` at top level -> (lhs, op, rhs)"""
+    pos = []
+
+    def f(i, ch, d):
+        if d == 0 and c[i:i + 2] in ("==", "!="):
+            pos.append(i)
+    scan(c, f)
+    if len(pos) != 1:
+        return None
+    i = pos[0]
+    return c[:i].strip(), c[i:i + 2], c[i + 2:].strip()
+
+
+def add_asprintf(fn, a):
+    if len(a) < 2:
+        raise NotFound("asprintf arity")
+    dest = a[0].lstrip("&").strip()
+    fmt = lit_text(a[1])
+    if fmt is None or not re.fullmatch(r"\w+", dest):
+        raise NotFound("asprintf destination/format")
+    fn.asprintf.append((dest, fmt, [arg_term(x) for x in a[2:]]))
+    fn.steps.append("asprintf")
+
+
+def add_sign(fn, a):
+    if fn.sign is not None or len(a) != 7:
+        raise NotFound("call of aws_sign in " + fn.name)
+    fn.sign = [arg_term(x) for x in a]
+    fn.steps.append("sign")
 
 
 def extract(repo):
     src = strip_comments(read(repo, "aws/aws_sign.c"))
-    bodies = func_bodies(src)
+    defs = func_defs(src)
     out = HEADER + "From Coq Require Import ZArith.\n\n"
     out += "Inductive farg : Type := AVar (name : list N) | ALit (bytes : list N).\n\n"
-    for fn in FUNCS:
-        if fn not in bodies:
-            raise NotFound("function " + fn)
-        body = bodies[fn]
-        calls = []
-        for m in re.finditer(r"asprintf\s*\(", body):
-            # find matching paren
-            i, depth = m.end(), 1
-            instr = False
-            while depth:
-                c = body[i]
-                if instr:
-                    if c == "\\":
-                        i += 1
-                    elif c == '"':
-                        instr = False
-                elif c == '"':
-                    instr = True
-                elif c == "(":
-                    depth += 1
-                elif c == ")":
-                    depth -= 1
-                i += 1
-            args = split_args(body[m.end():i - 1])
-            dest = args[0].lstrip("&").strip()
-            fmt = concat_literals(args[1])
-            calls.append((dest, fmt, args[2:]))
-        if not calls:
-            raise NotFound("asprintf calls in " + fn)
-        out += "(* %s: %d asprintf calls *)\n" % (fn, len(calls))
-        out += "Definition fmts_%s : list (list N * list N * list farg) :=\n  [" % fn
-        rows = []
-        for dest, fmt, args in calls:
-            rows.append("(%s,\n    %s,\n    [%s])" % (coq_name(dest), coq_bytes(fmt), "; ".join(arg_term(a) for a in args)))
-        out += ";\n   ".join(rows) + "].\n\n"
-        # the call to aws_sign(...) inside the variants
-        if fn != "aws_sign":
-            m = re.search(r"aws_sign\s*\(([^;]*?)\)\s*\)", body, flags=re.S)
-            if not m:
-                raise NotFound("call of aws_sign in " + fn)
-            a = split_args(m.group(1))
-            out += "Definition signargs_%s : list farg :=\n  [%s].\n\n" % (fn, "; ".join(arg_term(x) for x in a))
-        # strftime formats
-        sf = re.findall(r"strftime\s*\(\s*(\w+)\s*,\s*(\d+)\s*,\s*(%s)" % STR, body)
-        # which broken-down-time function feeds each strftime (must be gmtime_r for UTC)
-        tf = re.findall(r"strftime\s*\([^;]*?,\s*(\w+)\s*\(\s*&\s*t_now\s*,", body, flags=re.S)
-        if fn != "aws_sign":
-            if len(sf) != 2:
-                raise NotFound("two strftime calls in " + fn)
-            out += "Definition strftime_%s : list (list N * N * list N) :=\n  [%s].\n\n" % (
-                fn, "; ".join("(%s, %s%%N, %s)" % (coq_name(d), n, coq_bytes(concat_literals(lit))) for d, n, lit, _ in sf))
-            if len(tf) != 2:
-                raise NotFound("broken-down-time function of the two strftime calls in " + fn)
-            out += "Definition timefns_%s : list (list N) :=\n  [%s].\n\n" % (fn, "; ".join(coq_name(x) for x in tf))
-            nt = len(re.findall(r"\btime\s*\(", body))
-            out += "Definition time_calls_%s : N := %d%%N.\n\n" % (fn, nt)
-            # the value of time() that makes the function fail: if (time(&t_now) == (time_t)(-1))
-            te = re.findall(r"\btime\s*\(\s*&\s*t_now\s*\)\s*==\s*\(\s*time_t\s*\)\s*\(\s*(-?\d+)\s*\)", body)
-            if len(te) != 1:
-                raise NotFound("the time() error test in " + fn)
-            out += "Definition time_err_%s : Z := (%s)%%Z.\n\n" % (fn, te[0])
-        # SHA256_Buf(data, length-expression, out) calls
-        sh = []
-        for m in re.finditer(r"\bSHA256_Buf\s*\(([^;]*?)\)\s*;", body, flags=re.S):
-            a = split_args(m.group(1))
-            if len(a) != 3:
-                raise NotFound("SHA256_Buf arity in " + fn)
-            sh.append(a)
-        if len(sh) != (0 if fn == "aws_sign_s3_querystr" else 1):
-            raise NotFound("the SHA256_Buf call of " + fn)
-        out += "(* SHA256_Buf calls of %s: (data, length-expression, out) *)\n" % fn
+    fns = {}
+    for name in FUNCS:
+        if name not in defs:
+            raise NotFound("function " + name)
+        fns[name] = fn = read_function(name, *defs[name])
+        body = defs[name][1]
+        out += "(* %s: %d asprintf calls *)\n" % (name, len(fn.asprintf))
+        out += "Definition fmts_%s : list (list N * list N * list farg) :=\n  [" % name
+        out += ";\n   ".join("(%s,\n    %s,\n    [%s])" % (coq_name(d), coq_bytes(f), "; ".join(args))
+                             for d, f, args in fn.asprintf) + "].\n\n"
+        out += "(* SHA256_Buf calls of %s: (data, length-expression, out) *)\n" % name
         out += "Definition sha_calls_%s : list (list N * list N * list N) :=\n  [%s].\n\n" % (
-            fn, "; ".join("(%s, %s, %s)" % (coq_name(d), coq_name(re.sub(r"\s+", "", ln)), coq_name(o)) for d, ln, o in sh))
-    # key-derivation chain in aws_sign: HMAC_SHA256_Buf(key, keylen, data, datalen, out)
-    chain = []
-    for m in re.finditer(r"HMAC_SHA256_Buf\s*\(([^;]*?)\)\s*;", bodies["aws_sign"], flags=re.S):
-        a = split_args(m.group(1))
-        if len(a) != 5:
-            raise NotFound("HMAC_SHA256_Buf arity")
-        chain.append(a)
-    if len(chain) != 5:
-        raise NotFound("five HMAC_SHA256_Buf calls in aws_sign")
+            name, "; ".join("(%s, %s, %s)" % (coq_name(d), coq_name(ln), coq_name(o)) for d, ln, o in fn.sha))
+        out += "(* hexify calls of %s: (in, out, number of bytes) *)\n" % name
+        out += "Definition hexify_calls_%s : list (list N * list N * N) :=\n  [%s].\n\n" % (
+            name, "; ".join("(%s, %s, %d%%N)" % (coq_name(i), coq_name(o), n) for i, o, n in fn.hexify))
+        if name == "aws_sign":
+            continue
+        out += "Definition signargs_%s : list farg :=\n  [%s].\n\n" % (name, "; ".join(fn.sign))
+        out += "Definition strftime_%s : list (list N * N * list N) :=\n  [%s].\n\n" % (
+            name, "; ".join("(%s, %d%%N, %s)" % (coq_name(d), n, coq_bytes(lit)) for d, n, lit, _ in fn.strftime))
+        out += "Definition timefns_%s : list (list N) :=\n  [%s].\n\n" % (
+            name, "; ".join(coq_name(tf) for _, _, _, tf in fn.strftime))
+        # one sample of the clock: t_now is written by time() only and read by the conversions only
+        nt = len(re.findall(r"\btime\s*\(", body))
+        uses = len(re.findall(r"\bt_now\b", body))
+        convs = len(re.findall(r"\w+\s*\(\s*&\s*t_now\s*,", body))
+        if uses != 1 + nt + convs or convs not in (1, 2):
+            raise NotFound("uses of t_now in " + name)
+        out += "Definition time_calls_%s : N := %d%%N.\n\n" % (name, nt)
+        out += "Definition time_err_%s : Z := (%d)%%Z.\n\n" % (name, fn.time_err)
+        out += "(* strdup calls of %s: (output parameter, source) *)\n" % name
+        out += "Definition strdup_calls_%s : list (list N * list N) :=\n  [%s].\n\n" % (
+            name, "; ".join("(%s, %s)" % (coq_name(d), coq_name(s)) for d, s in fn.strdup))
+    fa = fns["aws_sign"]
     out += "(* HMAC chain of aws_sign: (key, keylen-expression, data, datalen-expression, out) *)\n"
     out += "Definition hmac_chain : list (farg * list N * farg * list N * list N) :=\n  ["
-    rows = []
-    for k, kl, d, dl, o in chain:
-        rows.append("(%s, %s, %s, %s, %s)" % (arg_term(k), coq_name(re.sub(r"\s+", "", kl)), arg_term(d),
-                                             coq_name(re.sub(r"\s+", "", dl)), coq_name(o)))
-    out += ";\n   ".join(rows) + "].\n\n"
-    # declared byte arrays of aws_sign (uint8_t kDate[32]; ...)
-    arrs = re.findall(r"uint8_t\s+(\w+)\s*\[\s*(\d+)\s*\]\s*;", bodies["aws_sign"])
-    if not arrs:
+    out += ";\n   ".join("(%s, %s, %s, %s, %s)" % (k, coq_name(kl), d, coq_name(dl), coq_name(o))
+                         for k, kl, d, dl, o in fa.hmac) + "].\n\n"
+    if not fa.u8arrays:
         raise NotFound("uint8_t array declarations in aws_sign")
     out += "Definition arrays_aws_sign : list (list N * N) :=\n  [%s].\n" % "; ".join(
-        "(%s, %s%%N)" % (coq_name(n), k) for n, k in arrs)
+        "(%s, %d%%N)" % (coq_name(n), k) for n, k in fa.u8arrays)
     return {"Repo_aws.v": out}
